@@ -190,7 +190,7 @@ func c01Machine(c *Ctx, cfg listCfg) *Machine[*listInst] {
 		New:     cfg.build,
 		NumOps:  len(ops),
 		OpName:  func(in *listInst, op int) string { return ops[op].name },
-		Enabled: func(in *listInst, op int) bool { return ops[op].enabled(in, cfg.MaxL) },
+		Enabled: func(in *listInst, op int) bool { return ops[op].enabled(in, cfg.MaxL) && in.s.Len() <= cfg.MaxL+3 },
 		Apply: func(in *listInst, op int, check bool) []string {
 			var before, bkey string
 			if check {
